@@ -131,7 +131,7 @@ Print Assumptions C16_bounds_tie.
 
 Theorem C16_bounds_example :
   map (dec1 true Linear [0; 3; 7] [0#1; 16#1; 32#1]%Q) [0; 3; 4; 7] =
-  [Some [0#4; 16#4]; Some [48#4; 64#4]; Some [64#4; 80#4]; Some [112#4; 128#4]]%Q.
+  [Some [0#1; 4#1]; Some [12#1; 16#1]; Some [16#1; 20#1]; Some [28#1; 32#1]]%Q.
 Proof. exact bounds_example. Qed.
 Print Assumptions C16_bounds_example.
 
@@ -207,3 +207,49 @@ Theorem C16_subspace_unguarded_refuted :
                         (take1 (dec1 false Linear tpi tp) (positions n ix) [0])).
 Proof. exact subspace1_unguarded_refuted. Qed.
 Print Assumptions C16_subspace_unguarded_refuted.
+
+(* ------------------------------------------------------------------ *)
+(* Third pass: the constructor arguments of SubsampledArray. *)
+
+(* The reconstituted array (whole or any subspace) is invariant under the
+   insertion order of every dictionary argument: tie_point_indices,
+   parameters, parameter_dimensions (association lists with distinct keys,
+   any permutation). *)
+Theorem C16_dict_order_invariant :
+  forall name bounds shape ty tp tpis tpis' params params' pdims pdims' prec ix,
+  NoDup (map fst tpis) -> Permutation.Permutation tpis tpis' ->
+  NoDup (map fst params) -> Permutation.Permutation params params' ->
+  Permutation.Permutation pdims pdims' ->
+  getitem_sa name bounds shape ty tp tpis params pdims prec ix =
+  getitem_sa name bounds shape ty tp tpis' params' pdims' prec ix.
+Proof. exact dict_order_invariant. Qed.
+Print Assumptions C16_dict_order_invariant.
+
+(* Non-vacuity: tie_point_indices given as {1: ..., 0: ...}; the four bounds of
+   cell (0,0) come out in the order (i,j) (i,j+1) (i+1,j+1) (i+1,j). *)
+Theorem C16_dict_order_example :
+  getitem_sa IBilinear true [4; 8] SF64
+    (TP2 [[NInt 0; NInt 64; NInt 128]; [NInt 1024; NInt 2048; NInt 4096]])
+    [(1, [0; 3; 7]); (0, [0; 3])] [] [] None [IPos [0]; IPos [0]; IPos [0; 1; 2; 3]] =
+  ObsArr [1; 1; 4] [Some (0#1); Some (16#1); Some (332#1); Some (256#1)]%Q.
+Proof. exact dict_order_example. Qed.
+Print Assumptions C16_dict_order_example.
+
+(* The type in which the tie points are stored does not enter: two tie point
+   arrays of any storage types (int16/32/64, float32/64) holding the same
+   numbers give the same uncompressed array, which is therefore the double
+   precision Appendix J value of the injected tie points (C16_linear_spec,
+   C16_quadratic_spec, C16_bilinear_spec, C16_tie_exact, C16_bounds_* are
+   stated over those injected values). *)
+Theorem C16_stored_type_irrelevant :
+  forall name bounds shape ty ty' tp tp' tpis params pdims prec ix,
+  tp_same tp tp' ->
+  getitem_sa name bounds shape ty tp tpis params pdims prec ix =
+  getitem_sa name bounds shape ty' tp' tpis params pdims prec ix.
+Proof. exact stored_type_irrelevant. Qed.
+Print Assumptions C16_stored_type_irrelevant.
+
+Theorem C16_stored_type_example :
+  tp_same (TP1 [NInt 3; NInt 8]) (TP1 [NFlt 6 (-1); NFlt 1 3]).
+Proof. exact stored_type_example. Qed.
+Print Assumptions C16_stored_type_example.
